@@ -406,16 +406,16 @@ class Gen:
                     else:
                         feat.add("err:dup-ns")
                 cfg = []
-                if r.random() < 0.25:
+                if r.random() < 0.2:
                     names = [n for n in ti["vis"]["v"] if not is_private(n)] or ["x"]
                     rr2 = r.random()
-                    if rr2 < 0.7:
+                    if rr2 < 0.85:
                         pick = [n for n in names if ti["vis"]["v"].get(n)] or names
                     else:
                         pick = names
                     for n in r.sample(pick, min(len(pick), r.choice([1, 1, 2]))):
                         cfg.append((n, self.v()))
-                    if r.random() < 0.12:
+                    if r.random() < 0.08:
                         cfg.append(("zz", self.v()))
                     feat.add("use-with")
                 head.append(("U", self.spelling(t, ti["partial"]), ns, cfg))
@@ -525,6 +525,45 @@ class Gen:
                 feat.add("err:private-ref")
         proj["feat"] = sorted(feat)
         return proj
+
+    def triangle(self):
+        """main uses `mid` and `a`; mid only forwards a (prefix / show / hide): every candidate name probed through both"""
+        r = self.rng
+        self.val, self.pid = 0, 0
+        info, feat = {}, set()
+        a = self.module("a", [], info, feat)
+        pfx = r.choice(PFXS + [None, None])
+        tv = info["a"]["vis"]
+        pv = lambda n: (pfx or "") + n
+        cand_v = [pv(n) for n in VARS] + (VARS if pfx else []) + [pv("-p")]
+        cand_f = [pv(n) for n in FNS + MIXINS] + (FNS if pfx else [])
+        rr = r.random()
+        if rr < 0.25:
+            vis = ("A",)
+        else:
+            vis = ("S" if rr < 0.65 else "H", r.sample(cand_v, r.choice([0, 1, 2, 3])), r.sample(cand_f, r.choice([0, 1, 2])))
+            if not vis[1] and not vis[2]:
+                vis = (vis[0], [r.choice(cand_v)], [])
+        mid = {"name": "mid", "partial": r.random() < 0.3, "body": [("W", self.spelling("a", info["a"]["partial"]), pfx, vis, [])]}
+        body = [("U", self.spelling("mid", mid["partial"]), "=", []), ("U", self.spelling("a", info["a"]["partial"]), "=", []), ("D",), ("C",)]
+        names_v = VARS + ["-p", "_q", "zz"]
+        for n in names_v:
+            body.append(("P", self.p(), True, "v", "a", n))
+        for n in FNS + ["-h"]:
+            body.append(("P", self.p(), True, "f", "a", n))
+        for n in MIXINS + ["_k"]:
+            body.append(("P", self.p(), True, "m", "a", n))
+        for n in names_v:
+            body.append(("P", self.p(), True, "v", "mid", pv(n)))
+            if pfx:
+                body.append(("P", self.p(), True, "v", "mid", n))
+        for n in FNS + ["-h"]:
+            body.append(("P", self.p(), True, "f", "mid", pv(n)))
+        for n in MIXINS + ["_k"]:
+            body.append(("P", self.p(), True, "m", "mid", pv(n)))
+        body += [("K", self.p(), "v", "mid"), ("K", self.p(), "f", "mid")]
+        feat |= {"triangle", "forward"} | ({"prefix"} if pfx else set()) | ({"show"} if vis[0] == "S" else {"hide"} if vis[0] == "H" else set())
+        return {"entry": "main", "mods": [a, mid, {"name": "main", "partial": False, "body": body}], "feat": sorted(feat)}
 
     def variants(self, proj, model_ok):
         """projects that differ from `proj` by one unguarded (possibly failing) reference"""
@@ -670,6 +709,37 @@ def run_models(projs, sws):
     return res
 
 
+def triangle_lines(proj, ob):
+    """For `main { @use mid; @use a }`, `mid { @forward a … }` (single forward, no own members): the
+    relation  visible(mid, n) <-> allowed(n) and has-prefix(n) and visible(a, strip n)  on grass's own answers."""
+    if ob["css"] is None or "triangle" not in proj.get("feat", []):
+        return []
+    res = {}
+    for e in ob["css"]:
+        m = re.fullmatch(r"P(\d+)=(.*)", e)
+        if m:
+            res[int(m.group(1))] = m.group(2)
+    mid = next(m for m in proj["mods"] if m["name"] == "mid")
+    w = next(s for s in mid["body"] if s[0] == "W")
+    pfx, vis = w[2], w[3]
+    vs = "A" if vis[0] == "A" else f"{vis[0]}:{ids(vis[1])}:{ids(vis[2])}"
+    main = next(m for m in proj["mods"] if m["name"] == "main")
+    by = {}
+    for st in main["body"]:
+        if st[0] == "P" and st[1] in res:
+            by[(st[4], st[3], nrm(st[5]))] = res[st[1]]
+    out = []
+    for (ns, kind, n), r in by.items():
+        if ns != "mid":
+            continue
+        up = nrm(n)[len(pfx):] if pfx and nrm(n).startswith(pfx) else (None if pfx else nrm(n))
+        upr = by.get(("a", kind, up)) if up is not None else "absent"
+        if upr is None:
+            continue
+        out.append((f"module allows {pfx or '-'} {vs} {kind} {n}", r, upr, (kind, n)))
+    return out
+
+
 def once_line(ob):
     css = [e[2:] for e in (ob["css"] or []) if e.startswith("C:")]
     return f"module once {ids(ob['dbg'])} {ids(css)}"
@@ -709,10 +779,24 @@ def evaluate(ck, pool, projs, tier):
     answers = pool.map(jobs, timeout=20)
     models = run_models(projs, ["now", "spec"])
     obs = [observe_impl(a) for a in answers]
-    onces = driver([once_line(o) for o in obs]) if obs else []
+    tri = [triangle_lines(p, o) for p, o in zip(projs, obs)]
+    lines = [once_line(o) for o in obs] + [t[0] for ts in tri for t in ts]
+    outs = driver(lines) if lines else []
+    onces = outs[:len(obs)]
+    tri_out = outs[len(obs):]
+    tri_fail, k = [], 0
+    for ts in tri:
+        fl = []
+        for (line, r, upr, what) in ts:
+            allowed = tri_out[k] == "ok 1"
+            k += 1
+            expect_visible = allowed and upr != "absent"
+            if (r != "absent") != expect_visible or (expect_visible and r != upr):
+                fl.append(f"forward-view: {what} through mid -> {r}; upstream -> {upr}; allowed by the rule: {allowed}")
+        tri_fail.append(fl)
     need_single = []
     results = []
-    for p, f, ans, mo, ob, oa in zip(projs, files, answers, models, obs, onces):
+    for p, f, ans, mo, ob, oa, tf in zip(projs, files, answers, models, obs, onces, tri_fail):
         now = observe_model(mo["now"])
         spec = observe_model(mo["spec"])
         if now is None or spec is None:
@@ -720,7 +804,7 @@ def evaluate(ck, pool, projs, tier):
             results.append(None)
             continue
         ci, cn, cs = canon_for_compare(p, ob), canon_for_compare(p, now), canon_for_compare(p, spec)
-        results.append({"proj": p, "files": f, "ans": ans, "ob": ob, "now": now, "spec": spec, "ci": ci, "cn": cn, "cs": cs, "once": oa})
+        results.append({"proj": p, "files": f, "ans": ans, "ob": ob, "now": now, "spec": spec, "ci": ci, "cn": cn, "cs": cs, "once": oa, "tri": tf})
         if ci != cs:
             need_single.append(len(results) - 1)
     # classify deviations from the specified behaviour by the single switch that explains them
@@ -769,10 +853,18 @@ def judge(ck, results, count=True):
                                          "driver_line": enc_proj(p, "now")})
         # (c) direct
         fails = direct_checks(p, r["ob"], r["once"])
+        soft = list(r.get("tri", []))
         if r["ci"] != r["cs"]:
-            fails.append("differs-from-specified-behaviour")
+            soft.append("differs-from-specified-behaviour")
+        if r.get("tri"):
+            ck.hist("direct:forward-relation-violated")
+        if "triangle" in feat:
+            ck.hist("direct:forward-relation-checked")
+        fails += soft
         if fails:
-            tags = r.get("tags", []) if fails == ["differs-from-specified-behaviour"] else []
+            # the forward relation and the difference from the specified model are explained by a known switch
+            # when the as-found model reproduces grass exactly; the independent predicates (once, private) never are
+            tags = r.get("tags", []) if (fails == soft and r["ci"] != r["cs"]) else []
             failing.append({"project": short(p), "feat": feat, "failures": fails, "impl_observation": r["ci"],
                             "specified_observation": r["cs"], "as_found_model_observation": r["cn"], "tags": tags,
                             "size": sum(len(m["body"]) for m in p["mods"]), "proj": p})
@@ -781,7 +873,135 @@ def judge(ck, results, count=True):
     return failing
 
 
-ALIAS_SAMPLES = None
+ALIAS_ARGS = {
+    "ceil": ["1.5"], "floor": ["1.5"], "round": ["2.5"], "abs": ["-3px"], "min": ["1, 2"], "max": ["1px, 2px"],
+    "percentage": ["0.5"], "comparable": ["1px, 1em", "1px, 1in"], "unit": ["1px"], "unitless": ["1", "1px"],
+    "length": ["(a b c)"], "nth": ["(a b c), 2"], "set-nth": ["(a b c), 2, z"], "join": ["(a b), (c d)"],
+    "append": ["(a b), c"], "zip": ["(a b), (1 2)"], "index": ["(a b c), b"], "list-separator": ["(a, b)"],
+    "is-bracketed": ["[a b]"], "map-get": ["(a: 1), a"], "map-merge": ["(a: 1), (b: 2)"],
+    "map-remove": ["(a: 1, b: 2), a"], "map-keys": ["(a: 1, b: 2)"], "map-values": ["(a: 1, b: 2)"],
+    "map-has-key": ["(a: 1), a"], "map-set": ["(a: 1), b, 2"], "unquote": ['"a"'], "quote": ["a"], "str-length": ['"abc"'],
+    "str-insert": ['"abc", "X", 2'], "str-index": ['"abc", "b"'], "str-slice": ['"abcd", 2, 3'],
+    "to-upper-case": ['"aB"'], "to-lower-case": ['"aB"'], "red": ["#123456"], "green": ["#123456"], "blue": ["#123456"],
+    "mix": ["red, blue, 30%"], "hue": ["#123456"], "saturation": ["#123456"], "lightness": ["#123456"],
+    "complement": ["#123456"], "grayscale": ["#123456"], "invert": ["#123456"], "alpha": ["rgba(1, 2, 3, 0.5)"],
+    "opacity": ["rgba(1, 2, 3, 0.5)"], "adjust-color": ["#123456, $red: 10"], "scale-color": ["#123456, $lightness: 10%"],
+    "change-color": ["#123456, $blue: 1"], "ie-hex-str": ["#123456"], "is-superselector": ['"a", "a.b"'],
+    "selector-append": ['".a", ".b"'], "selector-extend": ['".a .b", ".b", ".c"'], "selector-nest": ['".a", ".b"'],
+    "selector-parse": ['".a, .b"'], "selector-replace": ['".a .b", ".b", ".c"'], "selector-unify": ['".a", ".b"'],
+    "simple-selectors": ['".a.b"'], "feature-exists": ['"at-error"'], "inspect": ["(a b)"], "type-of": ["1px"],
+    "global-variable-exists": ['"zz"'], "variable-exists": ['"zz"'], "function-exists": ['"zz"'], "mixin-exists": ['"zz"'],
+    "get-function": ['"red"'], "call": ['get-function("red"), #123456'], "divide": ["6, 3"],
+}
+ALIAS_SKIP = {"random", "unique-id"}          # not functions of their arguments
+
+
+def check_aliases(ck, pool):
+    """built-in modules offer the same functions as their global aliases: sampled calls, both spellings"""
+    line = driver(["module aliases"])[0]
+    if not line.startswith("ok "):
+        ck.unproved("correspondence-broken", {"why": "driver `module aliases`", "answer": line})
+        return []
+    pairs = []
+    for t in line[3:].split():
+        mf, g = t.split("=")
+        m, f = mf.split(".", 1)
+        pairs.append((m, f, g))
+    jobs, meta = [], []
+    for m, f, g in pairs:
+        if g in ALIAS_SKIP:
+            continue
+        for args in ALIAS_ARGS.get(g, []) + ["", "1, 2, 3, 4, 5, 6"]:
+            a = f'@use "sass:{m}" as q; @use "sass:meta" as qq; a {{ r: qq.inspect(q.{f}({args})); }}'
+            b = f'@use "sass:meta" as qq; a {{ r: qq.inspect({g}({args})); }}'
+            jobs += [compile_job(a, syntax="scss"), compile_job(b, syntax="scss")]
+            meta.append((m, f, g, args))
+    answers = pool.map(jobs, timeout=10)
+    failing = []
+    for i, (m, f, g, args) in enumerate(meta):
+        x, y = answers[2 * i], answers[2 * i + 1]
+        ox = (x.get("status"), x.get("css") if x.get("status") == "ok" else (x.get("err") or {}).get("message"))
+        oy = (y.get("status"), y.get("css") if y.get("status") == "ok" else (y.get("err") or {}).get("message"))
+        ck.count(("alias", m, f, g, args), args != "")
+        ck.hist("alias-call:" + ("ok" if ox[0] == "ok" else "err"))
+        if ox != oy:
+            failing.append({"project": {"files": {"p/main.scss": f'@use "sass:{m}" as q; a {{ r: q.{f}({args}) vs {g}({args}) }}'},
+                                        "entry": "p/main.scss"},
+                            "feat": ["alias"], "failures": [f"builtin alias differs: {m}.{f}({args}) -> {ox}; {g}({args}) -> {oy}"],
+                            "impl_observation": [ox, oy], "tags": [], "size": 1, "proj": None})
+    ck.cov["alias_pairs"] = len(pairs)
+    return failing
+
+
+def check_disk(ck, pool):
+    """A few fixed layouts on the real disk (Fs::canonicalize is the identity on the in-memory Fs): `..` spellings
+    and a symlink name the same canonical file, which must still be evaluated once; a symlink cycle is a loop."""
+    import os
+    import shutil
+    from vlib import BUILD
+    root = os.path.join(BUILD, "c12-disk")
+    shutil.rmtree(root, ignore_errors=True)
+    os.makedirs(os.path.join(root, "p", "sub"))
+    w = lambda rel, text: open(os.path.join(root, rel), "w").write(text)
+    w("p/a.scss", "$x: v1;\n@debug dbg__a;\nm-a { k: v; }\n")
+    w("p/sub/b.scss", '@use "../a";\n@debug dbg__b;\nm-b { k: a.$x; }\n')
+    os.symlink("a.scss", os.path.join(root, "p", "link.scss"))
+    w("p/main.scss", '@use "a";\n@use "sub/b";\n@use "./sub/../a" as a3;\n@use "link" as a4;\n@use "sub/../sub/b" as b2;\n'
+      "@debug dbg__main;\nm-main { k: a3.$x; l: a4.$x; }\n")
+    w("p/c.scss", '@use "linkc";\nm-c { k: v; }\n')
+    os.symlink("c.scss", os.path.join(root, "p", "linkc.scss"))
+    w("p/main2.scss", '@use "c";\n')
+    jobs = [{"mode": "compile", "entry": os.path.join(root, "p", e), "fs": "std", "options": {}} for e in ("main.scss", "main2.scss")]
+    a1, a2 = pool.map(jobs, timeout=20)
+    failing = []
+    ob = observe_impl(a1)
+    once = driver([once_line(ob)])[0]
+    ck.count(("disk", 1), True)
+    ck.count(("disk", 2), True)
+    ck.hist("disk-layouts", 2)
+    if ob["status"] != "ok" or once != "ok 1" or sorted(ob["dbg"]) != ["a", "b", "main"]:
+        failing.append({"project": {"files": {"(real disk)": "a.scss, sub/b.scss (@use ../a), link.scss -> a.scss, main uses a, sub/b, "
+                                              "./sub/../a, link, sub/../sub/b"}, "entry": "p/main.scss"},
+                        "feat": ["disk"], "failures": [f"loads-once on the real disk: {ob} once={once}"], "impl_observation": ob,
+                        "tags": [], "size": 5, "proj": None})
+    if err_class(a2) != "moduleLoop":
+        failing.append({"project": {"files": {"(real disk)": "c.scss: @use linkc; linkc.scss -> c.scss"}, "entry": "p/main2.scss"},
+                        "feat": ["disk"], "failures": [f"symlink cycle not reported: {a2.get('status')} {err_class(a2)}"],
+                        "impl_observation": a2.get("status"), "tags": [], "size": 2, "proj": None})
+    shutil.rmtree(root, ignore_errors=True)
+    return failing
+
+
+def shrink(ck, pool, f):
+    """greedy statement / module removal while the case keeps failing without a known tag"""
+    proj = f["proj"]
+    if proj is None:
+        return f
+    best = f
+    for _ in range(6):
+        cands = []
+        p = best["proj"]
+        for i, m in enumerate(p["mods"]):
+            for j in range(len(m["body"])):
+                q = untuple(json.loads(json.dumps(p)))
+                del q["mods"][i]["body"][j]
+                cands.append(q)
+            if m["name"] != p["entry"]:
+                q = untuple(json.loads(json.dumps(p)))
+                del q["mods"][i]
+                cands.append(q)
+        if not cands:
+            break
+        sub = Check("C12", "quick", 0)
+        sub.disagreements = []
+        fl = [x for x in judge(sub, evaluate(sub, pool, cands[:400], "quick"), count=False) if not x["tags"]]
+        if not fl:
+            break
+        fl.sort(key=lambda x: x["size"])
+        if fl[0]["size"] >= best["size"]:
+            break
+        best = fl[0]
+    return best
 
 
 def run(tier, seed):
@@ -798,7 +1018,13 @@ def run(tier, seed):
     ck.assumptions = ["one directory over the in-memory Fs (Fs::canonicalize is the identity there): path spellings limited to "
                       "`name`, `name.scss`, `./name`, `_name`", "member bodies are constants / getters; values are opaque tokens",
                       "grass output observed through tools/cssread.py, @debug messages through the Logger"]
+    import translate_module_aliases
+    tok, tmsg = translate_module_aliases.main()
+    ck.cov["translator_ok"] = tok
+    ck.notes.append("translate_module_aliases: " + tmsg)
     ck.do_prove(cores=("module",))
+    if not tok:
+        ck.unproved("correspondence-broken", {"why": "tools/translate_module_aliases.py could not read the built-in tables", "message": tmsg})
     if not ck.do_build_runner():
         ck.unproved("correspondence-broken", {"why": "runner does not build against /repo", "error": getattr(ck, "build_error", "")})
         return ck.finish()
@@ -817,7 +1043,7 @@ def run(tier, seed):
     B = 500
     done = 0
     while done < n:
-        projs = [gen.project() for _ in range(min(B, n - done))]
+        projs = [gen.triangle() if ck.rng.random() < 0.12 else gen.project() for _ in range(min(B, n - done))]
         done += len(projs)
         res = evaluate(ck, pool, projs, tier)
         failing += judge(ck, res)
@@ -827,12 +1053,28 @@ def run(tier, seed):
                 vs += gen.variants(r["proj"], r["now"]["status"] == "ok")
         if vs:
             failing += judge(ck, evaluate(ck, pool, vs, tier))
-    failing.sort(key=lambda f: f["size"])
+    failing += check_aliases(ck, pool)
+    failing += check_disk(ck, pool)
+    unknown = [f for f in failing if not f["tags"]]
+    if (not ck.proof["ok"] or ck.cov["model_disagreements"]) and not unknown and tier == "quick":
+        log("[C12] proof or correspondence broken: enlarging the search")
+        for _ in range(12):
+            projs = [gen.triangle() if ck.rng.random() < 0.12 else gen.project() for _ in range(B)]
+            extra = judge(ck, evaluate(ck, pool, projs, tier), count=False)
+            failing += extra
+            if [f for f in extra if not f["tags"]]:
+                break
+        unknown = [f for f in failing if not f["tags"]]
+    unknown.sort(key=lambda f: f["size"])
+    shrunk = [shrink(ck, pool, f) for f in unknown[:3]]
+    failing = shrunk + [f for f in failing if f["tags"]] + unknown[3:]
+    failing.sort(key=lambda f: (bool(f["tags"]), f["size"]))
     reported = 0
     for f in failing:
         payload = {k: v for k, v in f.items() if k != "proj"}
-        payload["driver_line"] = enc_proj(f["proj"], "now")
-        payload["project_ast"] = f["proj"]
+        if f["proj"] is not None:
+            payload["driver_line"] = enc_proj(f["proj"], "now")
+            payload["project_ast"] = f["proj"]
         if ck.impl_violation(json.dumps(f["project"], sort_keys=True), payload, tags=f["tags"]):
             reported += 1
     if ck.cov["model_disagreements"] and not reported:
